@@ -5,3 +5,4 @@ import TelSpec.Program
 import TelSpec.Decode
 import TelSpec.Loop
 import TelSpec.Prec
+import TelSpec.Placement
